@@ -29,15 +29,10 @@ for mp in sorted(glob.glob(os.path.join(VERIF, 'seeded', '*', 'meta.json'))):
     first = (conf.get('first_check_results') or {}).get(pid, cur)
     tag = ''
     if m.get('obsolete_since'):
-        first = conf.get('first_check_results', {}).get(pid, cur)
-        hist = [r for r in (conf.get('first_check_results', {}).get(pid),
-                            cur) if r]
-        print('| %s | %s | %s | %s query_side_effect on the tree it was '
-              'written for; no longer manifests since fix %s (demo exits 0 '
-              'on HEAD + patch) |' % (
-                  name, short(m.get('summary'), 170),
-                  short(m.get('needs_to_manifest'), 150), pid,
-                  m['obsolete_since'].get('repo_commit')))
+        print('| %s | %s | %s | %s not counted: %s |' % (
+            name, short(m.get('summary'), 170),
+            short(m.get('needs_to_manifest'), 150), pid,
+            short(m['obsolete_since'].get('why'), 260)))
         continue
     if first['result'] != 'CAUGHT':
         tag = ' (**%s at first**)' % first['result'].lower()
